@@ -14,7 +14,7 @@ from ..common import Report, digest  # noqa: E402
 PROP = "C11"
 
 GLOBALS = [("collections", "OrderedDict"), ("collections", "Counter"), ("vp_sink", "hit"), ("_codecs", "encode"),
-           ("vp_objs", "Plain")]
+           ("vp_objs", "Plain"), ("collections.abc", "Mapping")]
 BASE = {("collections", "OrderedDict"), ("_codecs", "encode")}
 ADDS = {
     "none": (),
@@ -22,6 +22,7 @@ ADDS = {
     "sink": ("vp_sink.hit",),
     "both": ("collections.Counter", "vp_sink.hit"),
     "newmod2": ("vp_objs.Plain",),
+    "dotted-module": ("collections.abc.Mapping",),  # module with a dot: only the last component is the name
 }
 OPS = tuple(f"activate({a})" for a in ADDS) + ("deactivate",) + tuple(f"instance({a})" for a in ADDS)
 
